@@ -402,6 +402,72 @@ def s_minmax(is_min):
     return f
 
 
+def s_opt_zip(ip, frame, bb, st, callee, args, dty):
+    out = []
+    for s2, va, pa in split_enum(ip, st, args[0], "zip.a"):
+        if va == 0:
+            out.append((s2, mk(OPT, 0)))
+            continue
+        for s3, vb, pb in split_enum(ip, s2, args[1], "zip.b"):
+            out.append((s3, mk(OPT, 1, VAgg("tuple", None, [pa[0], pb[0]])) if vb == 1 else mk(OPT, 0)))
+    return out
+
+
+def s_opt_filter(ip, frame, bb, st, callee, args, dty):
+    out = []
+    for s2, var, pay in split_enum(ip, st, args[0], "filter"):
+        if var == 0:
+            out.append((s2, mk(OPT, 0)))
+            continue
+        root = ip.new_oid("filter-arg")
+        s2.mem[root] = pay[0]
+        for s3, bv in ip.call_value(frame, bb, s2, args[1], [VRef(root, (), False)], T.BOOL_TY):
+            if isinstance(bv, VBool):
+                for s4 in ip.branch(s3, bv.e, True):
+                    out.append((s4, mk(OPT, 1, pay[0])))
+                for s4 in ip.branch(s3, bv.e, False):
+                    out.append((s4, mk(OPT, 0)))
+    return out
+
+
+def s_bool_then(lazy):
+    def f(ip, frame, bb, st, callee, args, dty):
+        out = []
+        bv = args[0]
+        for s2 in ip.branch(st, bv.e, True):
+            if lazy:
+                for s3, v in ip.call_value(frame, bb, s2, args[1], [], ty_args(dty)[0]):
+                    out.append((s3, mk(OPT, 1, v)))
+            else:
+                out.append((s2, mk(OPT, 1, args[1])))
+        for s2 in ip.branch(st, bv.e, False):
+            out.append((s2, mk(OPT, 0)))
+        return out
+    return f
+
+
+def s_split_at_mut(ip, frame, bb, st, callee, args, dty):
+    sl = as_slice(ip, st, args[0])
+    mid = args[1].lin
+    if not require(ip, frame, bb, st, "IDX", "Le", mid, sl.n, "split_at_mut mid<=len"):
+        return []
+    return [(st, VAgg("tuple", None, [VSlice(sl.root, sl.steps, sl.start, mid, True), VSlice(sl.root, sl.steps, sl.start + mid, sl.n - mid, True)]))]
+
+
+def s_slice_fill(ip, frame, bb, st, callee, args, dty):
+    sl = as_slice(ip, st, args[0])
+    base = ip.read_raw(st, sl.root, sl.steps)
+    c0, cn = st.const_of(sl.start), st.const_of(sl.n)
+    if isinstance(base, VArr) and c0 is not None and cn is not None:
+        el = list(base.elems)
+        for i in range(c0, c0 + cn):
+            el[i] = args[1]
+        ip.write_raw(st, sl.root, sl.steps, VArr(el))
+    else:
+        havoc_slice(ip, st, sl)
+    return [(st, UNIT)]
+
+
 def s_expect(ip, frame, bb, st, callee, args, dty):
     return s_unwrap(ip, frame, bb, st, callee, args[:1], dty)
 
@@ -848,7 +914,16 @@ def s_copy_from_slice(ip, frame, bb, st, callee, args, dty):
         return []
     for h in ip.on_copy:
         h(ip, frame, bb, st, dst, src)
-    havoc_slice(ip, st, dst)
+    base = ip.read_raw(st, dst.root, dst.steps)
+    d0, dn = st.const_of(dst.start), st.const_of(dst.n)
+    if isinstance(base, VArr) and d0 is not None and dn is not None and dn <= 16 and d0 + dn <= len(base.elems):
+        # small constant range of a known array: element-precise copy
+        el = list(base.elems)
+        for i in range(dn):
+            el[d0 + i] = slice_elem(ip, st, src, Lin.const(i))
+        ip.write_raw(st, dst.root, dst.steps, VArr(el))
+    else:
+        havoc_slice(ip, st, dst)
     return [(st, UNIT)]
 
 
@@ -958,6 +1033,88 @@ def s_array_default(ip, frame, bb, st, callee, args, dty):
 def s_from_mut(ip, frame, bb, st, callee, args, dty):
     r = args[0]
     return [(st, VSlice(r.root, r.steps, Lin.const(0), Lin.const(1), True))]
+
+
+def s_from_ref(ip, frame, bb, st, callee, args, dty):
+    r = args[0]
+    return [(st, VSlice(r.root, r.steps, Lin.const(0), Lin.const(1), False))]
+
+
+def s_replace(ip, frame, bb, st, callee, args, dty):
+    # mem::replace(dest, src): returns the old *dest and stores src
+    a = args[0]
+    old = ip.read_raw(st, a.root, a.steps)
+    ip.write_raw(st, a.root, a.steps, args[1])
+    return [(st, old)]
+
+
+def s_take(ip, frame, bb, st, callee, args, dty):
+    # mem::take(dest): returns the old *dest and stores T::default()
+    from .interp import Unsupported
+    a = args[0]
+    old = ip.read_raw(st, a.root, a.steps)
+    if isinstance(old, VSlice):
+        root = ip.new_oid("empty")
+        st.mem[root] = VArr([])
+        new = VSlice(root, (), Lin.const(0), Lin.const(0), False)
+    elif isinstance(old, VInt):
+        new = cint(0, old.w, old.sg)
+    elif isinstance(old, VBool):
+        new = FALSE
+    else:
+        hit = ip.find_impl_method("std::default::Default", "default", dty, [])
+        if hit is None:
+            raise Unsupported("mem::take of " + ty_str(dty))
+        outs = ip.call_local(frame, bb, st, hit[0], hit[1], [])
+        res = []
+        for s2, v in outs:
+            ip.write_raw(s2, a.root, a.steps, v)
+            res.append((s2, old))
+        return res
+    ip.write_raw(st, a.root, a.steps, new)
+    return [(st, old)]
+
+
+def s_ref_eq(negate):
+    # <&A as PartialEq<&B>>::eq / ne: compares the referents
+    def f(ip, frame, bb, st, callee, args, dty):
+        a = deref(ip, st, args[0])
+        b = deref(ip, st, args[1])
+        if isinstance(a, VSlice) and isinstance(b, VSlice):
+            return s_slice_eq(ip, frame, bb, st, callee, [a, b], dty)
+        a2 = deref(ip, st, a) if isinstance(a, VRef) else a
+        b2 = deref(ip, st, b) if isinstance(b, VRef) else b
+        e = struct_eq(ip, st, a2, b2)
+        if negate:
+            e = ("c", not e[1]) if e[0] == "c" else ("not", e)
+        return [(st, VBool(e))]
+    return f
+
+
+def s_wrapping_neg(ip, frame, bb, st, callee, args, dty):
+    x = args[0]
+    return [(st, ip.wrap(st, -x.lin, x.w, x.sg, "wrapping_neg"))]
+
+
+def s_saturating(opname):
+    def f(ip, frame, bb, st, callee, args, dty):
+        x, y = args
+        w, sg = x.w, x.sg
+        from .state import ty_range
+        lo, hi = ty_range(w, sg)
+        r = x.lin - y.lin if opname == "sub" else x.lin + y.lin
+        out = []
+        a, b = fork_cmp(st, "Ge", r, Lin.const(lo))
+        if b is not None:
+            out.append((b, cint(lo, w, sg)))
+        if a is not None:
+            a2, b2 = fork_cmp(a, "Le", r, Lin.const(hi))
+            if a2 is not None:
+                out.append((a2, VInt(r, w, sg)))
+            if b2 is not None:
+                out.append((b2, cint(hi, w, sg)))
+        return out
+    return f
 
 
 def s_swap(ip, frame, bb, st, callee, args, dty):
@@ -1124,6 +1281,7 @@ def install(ip):
     E["<std::option::Option<T> as std::ops::FromResidual<std::option::Option<std::convert::Infallible>>>::from_residual"] = s_option_from_residual
     E["<T as std::convert::Into<U>>::into"] = s_into
     E["<T as std::convert::TryInto<U>>::try_into"] = s_try_into
+    E["std::array::<impl std::convert::TryFrom<&'a [T]> for &'a [T; N]>::try_from"] = s_try_into
     E["<I as std::iter::IntoIterator>::into_iter"] = s_identity
     E["std::iter::Iterator::by_ref"] = s_identity
     E["std::cmp::min"] = s_minmax(True)
@@ -1156,6 +1314,12 @@ def install(ip):
     E["std::option::Option::<T>::map_or_else"] = s_map_or(OPT, True)
     E["std::option::Option::<T>::is_some_and"] = s_is_and(OPT)
     E["std::result::Result::<T, E>::is_ok_and"] = s_is_and(RES)
+    E["std::option::Option::<T>::zip"] = s_opt_zip
+    E["std::option::Option::<T>::filter"] = s_opt_filter
+    E["core::bool::<impl bool>::then"] = s_bool_then(True)
+    E["core::bool::<impl bool>::then_some"] = s_bool_then(False)
+    E["core::slice::<impl [T]>::split_at_mut"] = s_split_at_mut
+    E["core::slice::<impl [T]>::fill"] = s_slice_fill
     E["std::option::Option::<&T>::copied"] = s_opt_copied
     E["std::option::Option::<&T>::cloned"] = s_opt_copied
     E["std::result::Result::<T, E>::expect"] = s_expect
@@ -1220,6 +1384,17 @@ def install(ip):
     E["std::array::<impl std::default::Default for [T; core::::array::{impl#61}::{constant#0}]>::default"] = s_array_default
     E["std::slice::from_mut"] = s_from_mut
     E["std::mem::swap"] = s_swap
+    E["std::mem::replace"] = s_replace
+    E["std::mem::take"] = s_take
+    E["std::slice::from_ref"] = s_from_ref
+    E["std::cmp::impls::<impl std::cmp::PartialEq<&B> for &A>::eq"] = s_ref_eq(False)
+    E["std::cmp::impls::<impl std::cmp::PartialEq<&B> for &A>::ne"] = s_ref_eq(True)
+    E["<std::io::ErrorKind as std::cmp::PartialEq>::eq"] = s_derived_eq
+    E["<std::io::ErrorKind as std::cmp::PartialEq>::ne"] = s_ne
+    for t in ("u8", "u16", "u32", "u64", "usize", "i8", "i16", "i32", "i64", "isize"):
+        E["core::num::<impl %s>::wrapping_neg" % t] = s_wrapping_neg
+        E["core::num::<impl %s>::saturating_sub" % t] = s_saturating("sub")
+        E["core::num::<impl %s>::saturating_add" % t] = s_saturating("add")
     E["crc::crc16::<impl crc::Crc<u16, crc::Table<L>>>::digest"] = s_crc_digest
     E["crc::crc16::<impl crc::Crc<u16, crc::Table<L>>>::checksum"] = s_crc_checksum
     E["crc::crc16::<impl crc::Digest<'a, u16, crc::Table<L>>>::update"] = s_crc_update
